@@ -7,7 +7,7 @@ for d in seeded/${1:-}*/; do
   n=$(basename "$d")
   prop=$(python3 -c "import json;print(json.load(open('$d/meta.json'))['property'])")
   p="$d/patch.diff"
-  if ! git -C /repo apply --check "$p" 2>/dev/null; then
+  if ! git -C /repo apply --check "$PWD/$p" 2>/dev/null; then
     if [ -f "$d/patch.rebased-on-final-tree.diff" ]; then p="$d/patch.rebased-on-final-tree.diff"; else echo "$n: patch does not apply on the final tree"; continue; fi
   fi
   echo -n "$n: "
